@@ -28,6 +28,7 @@ type Route struct {
 	V2      bool
 	Ordered bool
 	Local   bool
+	Xfer    bool // ICS-20 transfer application (real stack) instead of a scripted mock
 	// per direction d (0: end0 -> end1, 1: end1 -> end0)
 	Chain  [2]*sim.Chain
 	Port   [2]string // v1 port of end i
@@ -84,6 +85,8 @@ type PktState struct {
 	ackSeen []byte
 	// only meaningful in pre-block copies: was the end closed by an ordered timeout before the block
 	closedSrc, closedDst bool
+
+	X *XferInfo // ICS-20 transfer carried by this packet (token worlds)
 }
 
 // Tap is one application callback invocation observed by a scripted mock application.
@@ -132,6 +135,10 @@ type Core struct {
 	mutNeutral   bool
 	draining     bool
 	attempts     map[int64]int
+
+	tok           tokState
+	lastRefundSig string
+	lastRefusal   map[int64]string
 }
 
 // CoreOptions tune the generator for a property.
@@ -154,6 +161,18 @@ type CoreOptions struct {
 	Delay      uint64
 	WLocalVerify int
 	WDelayProbe  int
+	// token worlds
+	Tokens    bool
+	Chains    int      // number of chains (default 2)
+	Mesh      bool     // also link chain 0 and chain 2
+	Denoms    []string // extra native denominations held by every user
+	WXfer     int
+	WDonate   int
+	WAttack   int
+	WRateAdm  int
+	RateLimit bool // put rate limits on the transfer paths
+	WGrant    int
+	Forward   int // percent of transfers carrying a packet-forward memo
 	MEPT         uint64 // 03-connection MaxExpectedTimePerBlock (ns); 0 = default 30 s
 	UnbondSecs   int64
 	FarTimeouts  bool // packets use timeouts far in the future (worlds with very long delays)
@@ -192,15 +211,22 @@ func (p *Core) Setup(w *sim.World) {
 	p.lastSend, p.lastRecv, p.lastAck = map[string]uint64{}, map[string]uint64{}, map[string]uint64{}
 	p.closed = map[string]bool{}
 	p.closedAny, p.closeHeight, p.attempts = map[string]bool{}, map[string]int64{}, map[int64]int{}
+	p.lastRefusal = map[int64]string{}
 	p.mept = p.Opt.MEPT
 	if p.mept == 0 {
 		p.mept = uint64(30 * time.Second)
 	}
-	a := sim.NewChain(0, sim.ChainConfig{ChainID: "simchain-1", MaxExpectedTimePerBlock: p.Opt.MEPT}, w.Stats)
-	b := sim.NewChain(1, sim.ChainConfig{ChainID: "simchain-2", MaxExpectedTimePerBlock: p.Opt.MEPT}, w.Stats)
-	p.C = []*sim.Chain{a, b}
+	nch := p.Opt.Chains
+	if nch < 2 {
+		nch = 2
+	}
+	clk := &sim.Clock{}
+	for i := 0; i < nch; i++ {
+		p.C = append(p.C, sim.NewChain(i, sim.ChainConfig{ChainID: fmt.Sprintf("simchain-%d", i+1), MaxExpectedTimePerBlock: p.Opt.MEPT, ExtraDenoms: p.Opt.Denoms, Clock: clk}, w.Stats))
+	}
+	a, b := p.C[0], p.C[1]
 	w.Chains = p.C
-	p.Skew = make([]time.Duration, 2)
+	p.Skew = make([]time.Duration, nch)
 	for _, c := range p.C {
 		c.OnRebuild = p.install
 		p.install(c)
@@ -250,11 +276,21 @@ func (p *Core) Setup(w *sim.World) {
 		p.Routes = append(p.Routes, &Route{Kind: k, Local: true, Ordered: k == "loco", Chain: [2]*sim.Chain{a, a}, Port: [2]string{ibcmock.PortID, ibcmock.PortID}, ID: [2]string{l0, l1},
 			Client: [2]string{ibcexported.LocalhostClientID, ibcexported.LocalhostClientID}, Conn: [2]string{ibcexported.LocalhostConnectionID, ibcexported.LocalhostConnectionID}})
 	}
-	p.Now = a.LastTime
-	if b.LastTime.After(p.Now) {
-		p.Now = b.LastTime
+	if p.Opt.Tokens {
+		p.setupTokens(ea, eb, tm)
 	}
-	p.snap = []*sim.Snapshot{a.Census(coreStores), b.Census(coreStores)}
+	p.Now = a.LastTime
+	for _, c := range p.C {
+		if c.LastTime.After(p.Now) {
+			p.Now = c.LastTime
+		}
+	}
+	for _, c := range p.C {
+		p.snap = append(p.snap, c.Census(coreStores))
+	}
+	if p.Opt.Tokens {
+		p.initLedger()
+	}
 }
 
 var coreStores = []string{"ibc", memMock}
